@@ -1,0 +1,57 @@
+//! Verification hooks, only compiled with the `verif-hooks` cargo feature.
+//!
+//! - [`POISON_SEED`]: when non-zero, working memory is overwritten with
+//!   pseudo-random bytes whenever it is (re)sized, so that every round
+//!   runs against adversarial stale contents.
+//! - [`FEATURE_MASK`]: runtime CPU feature detection of the default engine
+//!   is ANDed with this mask (it can only remove features).
+//! - [`ISA_TRACE`]: every `#[target_feature]` entry point ORs its ISA bit here.
+
+use std::sync::atomic::{AtomicU64, AtomicUsize, Ordering};
+
+/// Seed of the stale-memory poison; `0` disables poisoning.
+pub static POISON_SEED: AtomicU64 = AtomicU64::new(0);
+
+/// Bit for AVX2 in [`FEATURE_MASK`] and [`ISA_TRACE`].
+pub const ISA_AVX2: usize = 1;
+/// Bit for SSSE3 in [`FEATURE_MASK`] and [`ISA_TRACE`].
+pub const ISA_SSSE3: usize = 2;
+/// Bit for Neon in [`FEATURE_MASK`] and [`ISA_TRACE`].
+pub const ISA_NEON: usize = 4;
+
+/// Features the default engine is allowed to see.
+pub static FEATURE_MASK: AtomicUsize = AtomicUsize::new(usize::MAX);
+
+/// ISAs whose `#[target_feature]` code has been entered.
+pub static ISA_TRACE: AtomicUsize = AtomicUsize::new(0);
+
+/// Returns `true` if the mask allows `isa`.
+#[inline]
+pub fn allowed(isa: usize) -> bool {
+    FEATURE_MASK.load(Ordering::Relaxed) & isa != 0
+}
+
+/// Records that code compiled for `isa` is executing.
+#[inline(always)]
+pub fn trace(isa: usize) {
+    ISA_TRACE.fetch_or(isa, Ordering::Relaxed);
+}
+
+/// Overwrites `data` with pseudo-random bytes if poisoning is enabled.
+pub(crate) fn poison(data: &mut [[u8; 64]]) {
+    let seed = POISON_SEED.load(Ordering::Relaxed);
+    if seed == 0 {
+        return;
+    }
+    // Advance the seed so that consecutive resizes see different garbage.
+    let mut state = seed | 1;
+    for chunk in data.iter_mut() {
+        for byte in chunk.iter_mut() {
+            state ^= state << 13;
+            state ^= state >> 7;
+            state ^= state << 17;
+            *byte = (state >> 32) as u8;
+        }
+    }
+    POISON_SEED.store(state | 1, Ordering::Relaxed);
+}
